@@ -33,6 +33,24 @@ func gen(c *hmain.Ctx) {
 	add("split-fan", pipedrv.FamSplitFan, 15)
 	add("retry-backoff", pipedrv.FamRetryBackoff, 10)
 	add("maintenance", pipedrv.FamMaint, 6)
+	// both causes of a retry give-up: attempts used up / backoff.Stop on the first failure with attempts remaining or
+	// unlimited (MinRetention past the 15 min MaxElapsedTime crossing), without and with a (blocking) dead queue.  The
+	// dead-queue cases share the stream (and the recorded frontier finding) of the older dead-queue family
+	add("retry-stop", pipedrv.FamRetryStop, 14)
+	add("deadqueue", pipedrv.FamDeadQStop, 16)
+	for i, retry := range []int{3, -1, 1, 0} {
+		for _, dq := range []bool{false, true} {
+			st := "retry-stop"
+			if dq {
+				st = "deadqueue"
+			}
+			for _, retention := range []int{pipedrv.StopRetentions[i%3], 1} {
+				for k := 0; k < c.Scale; k++ {
+					jobs = append(jobs, &pipedrv.Job{Stream: st, Case: pipedrv.StopGiveUp(1+(i+k)%2, 1+(i+k)%3, retry, dq, 120*((i+k+1)%2), retention)})
+				}
+			}
+		}
+	}
 	pipedrv.RunJobs(jobs, 40)
 	for _, j := range jobs {
 		pipedrv.Stats(c.W.Count, j)
@@ -43,6 +61,6 @@ func gen(c *hmain.Ctx) {
 func main() {
 	pipedrv.UseProductionNodePool()
 	hmain.Run(&hmain.Prop{ID: "C01",
-		Rule: "each case = (pipeline config: processors, pool kind/capacity, event time-out, action count, output kind/workers/batch size/retry/dead queue; per-source feeder scripts of JSON events whose 'ops' field scripts every action: pass/discard/hold/continue/break/split; send delay/failure plan) run on the real pipeline; observable = label trace of streams, processors, finalize, batchers. Threshold-crossing families: capacity-1, slow-flush (flush >= 100 ms), hold-slow (event time-out > 200 ms), recycle (feeder op 6: pads up to 64 KiB / > 64 JSON nodes; op 'g' grows Buf; 4th case element = (avgEventSize retentionMs multiplierPercent maintenanceMs)), split-fan (0-14 children with their own ops), retry-backoff, maintenance; directed expand-procs / stale-unblock-slow. Every case is non-trivial (>= 3 events); distinct = distinct case text.",
+		Rule: "each case = (pipeline config: processors, pool kind/capacity, event time-out, action count, output kind/workers/batch size/retry/dead queue; per-source feeder scripts of JSON events whose 'ops' field scripts every action: pass/discard/hold/continue/break/split; send delay/failure plan) run on the real pipeline; observable = label trace of streams, processors, finalize, batchers. Threshold-crossing families: capacity-1, slow-flush (flush >= 100 ms), hold-slow (event time-out > 200 ms), recycle (feeder op 6: pads up to 64 KiB / > 64 JSON nodes; op 'g' grows Buf; 4th case element = (avgEventSize retentionMs multiplierPercent maintenanceMs)), split-fan (0-14 children with their own ops), retry-backoff, maintenance; directed expand-procs / stale-unblock-slow. retry-stop / deadqueue: retry counts -3..3 x MinRetention 1 ms | 31 min, 1 h, 24 h (past the backoff library's 15 min MaxElapsedTime crossing: give-up by backoff.Stop on the first failure, attempts remaining or unlimited) x dead queue off / on, its sends blocking 0-150 ms (5th ext element); directed stop-give-up schedules. Every case is non-trivial (>= 3 events); distinct = distinct case text.",
 		Gen: gen, Exec: func(which int, cs hx.Sx) hx.Sx { return pipedrv.RunCase(cs) }})
 }
